@@ -41,11 +41,13 @@ class DecStr(Str):
 
 
 class SizedStr(Str):
-    """string of which only the byte length (a symbolic 64-bit value) is observable"""
-    __slots__ = ('byte_len',)
+    """string of which only the byte length and the number of characters (symbolic 64-bit values) are observable;
+    characters are 1 or 2 bytes wide: char_len <= byte_len <= 2 * char_len (a constraint the harness adds)"""
+    __slots__ = ('byte_len', 'char_len')
 
-    def __init__(self, byte_len):
+    def __init__(self, byte_len, char_len=None):
         self.byte_len = byte_len
+        self.char_len = char_len if char_len is not None else byte_len
         self.v = None
 
     @property
@@ -53,7 +55,10 @@ class SizedStr(Str):
         return False
 
     def render(self, model):
-        return 'r' * model.eval(self.byte_len, model_completion=True).as_long()
+        b = model.eval(self.byte_len, model_completion=True).as_long()
+        c = model.eval(self.char_len, model_completion=True).as_long() if not isinstance(self.char_len, int) else self.char_len
+        two = max(0, min(b - c, c))
+        return 'é' * two + 'r' * (b - 2 * two)
 
 
 class TreeBuilder:
@@ -422,6 +427,7 @@ class Printer:
         self.out = []
         self.pos = 0
         self.starts = {}
+        self.ends = {}
         self.nl, self.ind = newline, indent
         self.depth = 0
         self.lead = lead
@@ -460,6 +466,16 @@ class Printer:
             self.ident(i)
 
     def expr(self, e):
+        """prints an expression and records where it ends (the parser's Loc.end is the end of the last token)"""
+        self._expr(e)
+        k = e.variant
+        if k in ('Parenthesis', 'StringLiteral', 'HexLiteral'):
+            return
+        loc = e.fields[0].fields[0] if k == 'Variable' else e.fields[0]
+        if isinstance(loc, Adt) and loc.ty == 'Loc':
+            self.ends.setdefault(loc_id(loc), self.pos)
+
+    def _expr(self, e):
         k = e.variant
         f = e.fields
         if k == 'Parenthesis':
@@ -920,9 +936,11 @@ class Printer:
         return self.text()
 
 
-def print_source(su, **kw):
+def print_source(su, with_ends=False, **kw):
     p = Printer(**kw)
     text = p.source_unit(su)
+    if with_ends:
+        return text, p.starts, p.ends
     return text, p.starts
 
 
